@@ -15,7 +15,9 @@ use soroban_sdk::xdr::{self, ScVal};
 use soroban_sdk::{Address, BytesN, Env, IntoVal, Symbol, TryFromVal, Val, Vec as SVec};
 
 const EPS: [&str; 6] = ["update_delay", "grant_role", "revoke_role", "set_role_admin", "transfer_admin_role", "renounce_admin"];
-const STATES: [&str; 5] = ["unset", "waiting", "ready", "done", "cancelled"];
+// "foreign_target": the same (function, arguments, predecessor, salt) was scheduled and is ready - but for
+// ANOTHER contract; nothing was ever scheduled for the controller itself
+const STATES: [&str; 6] = ["unset", "waiting", "ready", "done", "cancelled", "foreign_target"];
 const SHAPES: [&str; 7] = ["proper", "empty", "two", "wrong_salt", "wrong_pred", "no_entry", "other_call"];
 const EXECS: [&str; 4] = ["proper", "absent", "not_executor", "executor_unsigned"];
 
@@ -122,6 +124,13 @@ fn drive_state(su: &Setup, ep: &str, a: &SVec<Val>, pred: &BytesN<32>, salt: &By
     e.mock_all_auths();
     let id: BytesN<32> = invoke(e, &su.c, "hash_operation", args!(e, su.c, Symbol::new(e, ep), a.clone(), pred.clone(), salt.clone())).must("hash_operation");
     if state == "unset" {
+        return id;
+    }
+    if state == "foreign_target" {
+        let other = e.register(CountTarget, ());
+        let r: Result<BytesN<32>, Fail> = invoke(e, &su.c, "schedule_op", args!(e, other, Symbol::new(e, ep), a.clone(), pred.clone(), salt.clone(), 5u32, su.p));
+        r.expect("schedule_op for another target in setup");
+        su.w.set_ledger(su.w.ledger() + 5);
         return id;
     }
     let r: Result<BytesN<32>, Fail> = invoke(e, &su.c, "schedule_op", args!(e, su.c, Symbol::new(e, ep), a.clone(), pred.clone(), salt.clone(), 5u32, su.p));
@@ -238,6 +247,12 @@ fn one_case(rep: &mut Report, idx: u64, with_exec: bool, ep: &str, state: &str, 
     rep.count(&format!("{}:{}", ep, tag(&got)));
     if let Err(Fail::Budget) = got {
         rep.count("budget_errors");
+    }
+    if state == "foreign_target" {
+        rep.check("bypass", got.is_err(), &format!("C09/bypass/{ep}/consumed-an-operation-scheduled-for-another-target/{shape}"), || {
+            format!("{label}: admin-only call succeeded although the only operation ever scheduled names another contract; the controller reported state {st_before} -> {st_after} for its own id")
+        });
+        rep.check("ref", st_before == 0, "C09/ref/state-of-an-operation-never-scheduled-for-the-controller", || format!("{label}: state {st_before} before the call"));
     }
     // The property: the call goes through only by consuming a Ready operation for exactly this call
     if got.is_ok() {
